@@ -18,6 +18,7 @@ type Proxy struct {
 	conns    map[*pair]bool
 	cutAfter int64 // > 0: the next connection is cut after that many bytes (both directions summed)
 	cutRST   bool
+	cutHole  bool // instead of cutting, the connection stays open and everything after the budget is swallowed
 
 	Attempts int64 // connections accepted by the listener (including those refused during an outage)
 	Cuts     int64
@@ -29,6 +30,8 @@ type pair struct {
 	once   sync.Once
 	budget int64 // bytes until the cut; <= 0: none
 	rst    bool
+	hole   bool
+	dead   int32 // hole reached: nothing is forwarded any more
 	p      *Proxy
 	fwd    int64
 }
@@ -53,6 +56,14 @@ func (p *Proxy) SetOutage(on bool)       { p.mu.Lock(); p.outage = on; p.mu.Unlo
 func (p *Proxy) CutNextAfter(n int64, rst bool) {
 	p.mu.Lock()
 	p.cutAfter, p.cutRST = n, rst
+	p.mu.Unlock()
+}
+
+// HoleNextAfter arms a black hole on the next accepted connection: after n forwarded bytes nothing is forwarded any
+// more in either direction, but the connection stays open (a hung peer).
+func (p *Proxy) HoleNextAfter(n int64) {
+	p.mu.Lock()
+	p.cutAfter, p.cutRST, p.cutHole = n, false, true
 	p.mu.Unlock()
 }
 
@@ -113,8 +124,8 @@ func (p *Proxy) loop() {
 		atomic.AddInt64(&p.Attempts, 1)
 		p.mu.Lock()
 		up, out := p.upstream, p.outage
-		budget, rst := p.cutAfter, p.cutRST
-		p.cutAfter = 0
+		budget, rst, hole := p.cutAfter, p.cutRST, p.cutHole
+		p.cutAfter, p.cutHole = 0, false
 		p.mu.Unlock()
 		if out {
 			if t, ok := a.(*net.TCPConn); ok {
@@ -129,7 +140,7 @@ func (p *Proxy) loop() {
 				a.Close()
 				return
 			}
-			c := &pair{a: a, b: b, budget: budget, rst: rst, p: p}
+			c := &pair{a: a, b: b, budget: budget, rst: rst, hole: hole, p: p}
 			p.mu.Lock()
 			p.conns[c] = true
 			p.mu.Unlock()
@@ -145,12 +156,19 @@ func (c *pair) pipe(dst, src net.Conn) {
 		n, err := src.Read(buf)
 		if n > 0 {
 			out := buf[:n]
+			if atomic.LoadInt32(&c.dead) == 1 {
+				continue
+			}
 			if c.budget > 0 {
 				done := atomic.AddInt64(&c.fwd, int64(n))
 				if done >= c.budget {
 					keep := int64(n) - (done - c.budget)
 					if keep > 0 {
 						dst.Write(out[:keep])
+					}
+					if c.hole {
+						atomic.StoreInt32(&c.dead, 1)
+						continue
 					}
 					c.close()
 					return
